@@ -645,3 +645,75 @@ def by7(ctx):
                       'inside the loop the running byte total is overwritten (at %s) instead of increased: only the last entry is reported' % (bad[:1] or ['no accumulation found']))
     if n == 0:
         ctx.missing('loop-writers', 'no counting writer call inside a loop')
+
+
+@rule('QX5', ['C04', 'C01', 'C13'], floor=3, template='guard-dominates-exit')
+def qx5(ctx):
+    """A mutating call answers Ok without having logged anything only where the specification says the call is a
+    no-op: the retry of the last position and the empty batch in `append_records` -- nowhere else. `create_queue`,
+    `delete_queue` and `truncate` do what they are asked or fail: an Ok that by-passes the WAL entry (a "this was asked
+    before" cache, a watermark) acknowledges an operation that neither memory nor the log will ever know about -- a
+    truncation that was to move the queue forward is dropped, and positions it covered are handed out again."""
+    n = 0
+    for b in api_mut(ctx):
+        if b.generic_dup():
+            continue
+        kw = kinds_written(ctx, b)
+        if not kw:
+            continue
+        logs = [cs.point for cs in log_sites(ctx, b)]
+        gates = gate_calls(ctx, b)
+        quiet_ok = [e for e in b.exits() if e['kind'] == 'ok' and not any(b.dominates(lp, e['point']) for lp in logs) and e['point'] in b.reach([b.entry], avoid=logs)]
+        n += 1
+        bad = []
+        for e in quiet_ok:
+            allowed = False
+            if 'AppendRecords' in kw:
+                for g in gates:
+                    if g['kind'] == 'retry' and g.get('op') == 'Eq' and b.edge_dominates(g['true'], e['point']):
+                        allowed = True
+                    if g['kind'] == 'empty' and b.edge_dominates(g['true'], e['point']):
+                        allowed = True
+            if not allowed:
+                bad.append(b.loc(e['point']))
+        ctx.check(not bad, '%s:quiet-ok-only-for-noops' % b.path, b.span, 'every Ok that by-passes the WAL entry sits under the retry / empty-batch gate (%d such exits)' % len(quiet_ok),
+                  '%s can answer Ok without writing its WAL entry outside the two specified no-ops (%s): the operation is acknowledged and never happens, live or after a restart' % (b.path.split('::')[-1], ', '.join(sorted(set(bad)))))
+    if n < 3:
+        ctx.missing('bodies', 'expected the mutating API bodies (create, delete, truncate, append), found %d' % n)
+
+
+@rule('BY8', ['C15'], floor=1, template='no-self-dependence')
+def by8(ctx):
+    """A byte counter is advanced by what was written, once: in `acc += x` the addend does not itself contain the
+    counter. A helper that returns "the running total, this entry included" added to the total again counts every
+    earlier entry twice -- exact for the first entry, which is all a test with one empty queue sees."""
+    n = 0
+    bad = []
+    for b in ctx.f.bodies.values():
+        if b.generic_dup() or b.is_test or not ctx.E.may().get(b.id, set()) & {'WRITE'}:
+            continue
+        for bi, blk in enumerate(b.blocks):
+            if not b.live[bi]:
+                continue
+            for si, st in enumerate(blk['stmts']):
+                if st['k'] != 'assign' or st['rv']['k'] != 'binop' or not st['rv']['op'].startswith('Add') or st['place']['p']:
+                    continue
+                for (acc_op, x_op) in ((st['rv']['a'], st['rv']['b']), (st['rv']['b'], st['rv']['a'])):
+                    al = op_local(acc_op)
+                    if al is None or acc_op['place']['p'] or len(b.defs.get(al, [])) < 2 or b.local_ty(al) not in ('u64', 'usize'):
+                        continue
+                    # the sum is stored back into the same local: `acc = (acc + x).0`
+                    t = st['place']['l']
+                    back = any(kind == 'assign' and not d['place']['p'] and d['rv']['k'] == 'use' and d['rv']['op']['k'] in ('copy', 'move') and d['rv']['op']['place']['l'] == t
+                               for (_p, kind, d) in b.defs.get(al, []))
+                    if not back:
+                        continue
+                    n += 1
+                    af = b.affine(x_op, phi=True)
+                    if af is not None and af[0].get(('local', al), 0) > 0:
+                        bad.append('%s (%s)' % (b.loc(b.pstart[bi] + si), b.path))
+    if n == 0:
+        ctx.missing('accumulators', 'no `acc += x` byte accumulation found in the writing bodies')
+        return
+    ctx.check(not bad, 'addend-does-not-contain-the-counter', 'src/', 'in the %d accumulations of the writing bodies the addend never contains the counter it is added to' % n,
+              'a counter is advanced by a value that already contains the counter (%s): every earlier contribution is counted again -- exact for one entry, double from the second on' % ', '.join(sorted(set(bad))))
